@@ -1,10 +1,17 @@
 import SonicSpec.Model.Hex
+import SonicSpec.Driver.Str
 namespace SonicSpec.Driver
+
+def handlers : List (List String → Option String) :=
+  [ Str.handle ]
 
 /-- one protocol line in (already split at tabs), one result line out -/
 def dispatch (parts : List String) : String :=
   match parts with
   | "ping" :: _ => "pong"
-  | _ => "model=unsupported"
+  | _ =>
+    match handlers.findSome? (fun h => h parts) with
+    | some r => r
+    | none => "model=unsupported"
 
 end SonicSpec.Driver
